@@ -5,6 +5,10 @@ from ..engines import provenance as PV
 
 
 def run(ctx):
+    # language-level slips in the modules the property is anchored in (engine Y)
+    from ..engines import gotchas as GY
+    GY.run(ctx, ('rule_db.forest', 'strategies.rule'))
+    ctx.floor("Y", 1)
     ctx.extra["explanation"] = (
         "static analysis (ast, no execution) of rule_db/forest.py and of every forest_key "
         "implementation: every bucket a rule can be filed under is minimised, REVERSE first; all "
